@@ -733,4 +733,322 @@ theorem sortEntries_keysAgree {xs ys : Val} (hx : KeysIn P xs) (hy : KeysIn P ys
 
 end unique
 
+/-! ## typed keys form a key set -/
+
+namespace Cmp
+
+theorem Env.under_of_not_named (env : Env) {T : Ty} (h : T.isNamed = false) : env.under T = T := by
+  cases T <;> simp_all [Env.under, Ty.isNamed]
+
+theorem flagsOk_decl {env : Env} (h : env.flagsOk = true) {i : Nat} {d : Decl}
+    (hd : env.decl? i = some d) : d.canEq = canEqual env d.under ∧ d.under.isNamed = false := by
+  simp only [Env.flagsOk, List.all_eq_true] at h
+  have hm : d ∈ env.decls := by
+    simp only [Env.decl?] at hd
+    exact List.mem_of_getElem? hd
+  have := h d hm
+  simpa using this
+
+/-- `canEqual` passes to the underlying type -/
+theorem canEqual_under {env : Env} (h : env.flagsOk = true) {T : Ty}
+    (hc : canEqual env T = true) : canEqual env (env.under T) = true := by
+  cases T <;> try (simpa [Env.under] using hc)
+  rename_i i
+  simp only [canEqual] at hc
+  simp only [Env.under]
+  cases hd : env.decl? i with
+  | none => simp [hd] at hc
+  | some d => simp only [hd] at hc ⊢; rw [← (flagsOk_decl h hd).1]; exact hc
+
+/-- the underlying type is never a name (for well-formed environments) -/
+theorem under_not_named {env : Env} (h : env.flagsOk = true) (T : Ty) :
+    (env.under T).isNamed = false := by
+  cases T <;> try (simp [Env.under, Ty.isNamed]; done)
+  rename_i i
+  simp only [Env.under]
+  cases hd : env.decl? i with
+  | none => simp [Ty.isNamed]
+  | some d => exact (flagsOk_decl h hd).2
+
+theorem hasType_basic {env : Env} {T : Ty} {b : Basic} (hU : env.under T = .basic b) (v : Val) :
+    hasType env T v = basicHasType b v := by
+  rw [hasType.eq_def, hU]
+
+theorem hasType_array {env : Env} {T : Ty} {n : Nat} {E : Ty} (hU : env.under T = .array n E)
+    (v : Val) : hasType env T v = true ↔ ∃ xs, v = .arr xs ∧ xs.slen = n ∧ allHaveType env E xs = true := by
+  rw [hasType.eq_def, hU]; cases v <;> simp
+
+theorem hasType_struct {env : Env} {T : Ty} {fs : Ty} (hU : env.under T = .struct fs)
+    (v : Val) : hasType env T v = true ↔ ∃ xs, v = .struct xs ∧ fieldsHaveType env fs xs = true := by
+  rw [hasType.eq_def, hU]; cases v <;> simp
+
+theorem hasType_ptr {env : Env} {T : Ty} {R : Ty} (hU : env.under T = .ptr R)
+    {v : Val} (h : hasType env T v = true) :
+    v = .nilv ∨ ∃ a w, v = .ptr a w ∧ hasType env R w = true := by
+  rw [hasType.eq_def, hU] at h
+  cases v <;> simp at h
+  · exact .inl rfl
+  · exact .inr ⟨_, _, rfl, h⟩
+
+theorem hasType_slice {env : Env} {T : Ty} {E : Ty} (hU : env.under T = .slice E)
+    {v : Val} (h : hasType env T v = true) :
+    v = .nilv ∨ ∃ a sp xs, v = .slice a sp xs ∧ allHaveType env E xs = true := by
+  rw [hasType.eq_def, hU] at h
+  cases v <;> simp at h
+  · exact .inl rfl
+  · exact .inr ⟨_, _, _, rfl, h⟩
+
+theorem hasType_map {env : Env} {T : Ty} {K V : Ty} (hU : env.under T = .map K V)
+    {v : Val} (h : hasType env T v = true) :
+    v = .nilv ∨ ∃ a es, v = .map a es ∧ canEqual env K = true ∧ entriesHaveType env K V es = true ∧
+        keysDistinct es = true := by
+  rw [hasType.eq_def, hU] at h
+  cases v <;> simp at h
+  · exact .inl rfl
+  · exact .inr ⟨_, _, rfl, h.1.1, h.1.2, h.2⟩
+
+/-- no value has a type whose underlying type is not a basic, pointer, slice, array, struct or map
+type -/
+theorem hasType_false_of_under {env : Env} {T : Ty} {v : Val} (h : hasType env T v = true) :
+    (∃ b, env.under T = .basic b) ∨ (∃ R, env.under T = .ptr R) ∨ (∃ E, env.under T = .slice E) ∨
+    (∃ n E, env.under T = .array n E) ∨ (∃ fs, env.under T = .struct fs) ∨
+    (∃ K V, env.under T = .map K V) := by
+  rw [hasType.eq_def] at h
+  split at h <;> simp_all
+
+@[simp] theorem allHaveType_snil (env : Env) (E : Ty) : allHaveType env E .snil = true := by
+  rw [allHaveType]
+
+@[simp] theorem allHaveType_scons (env : Env) (E : Ty) (a r : Val) :
+    allHaveType env E (.scons a r) = (hasType env E a && allHaveType env E r) := by
+  rw [allHaveType]
+
+theorem allHaveType_inv {env : Env} {E : Ty} {xs : Val} (h : allHaveType env E xs = true) :
+    xs = .snil ∨ ∃ a r, xs = .scons a r ∧ hasType env E a = true ∧ allHaveType env E r = true := by
+  rw [allHaveType.eq_def] at h
+  split at h
+  · exact .inl rfl
+  · simp only [Bool.and_eq_true] at h; exact .inr ⟨_, _, rfl, h⟩
+  · simp at h
+
+@[simp] theorem fieldsHaveType_nil (env : Env) : fieldsHaveType env .fnil .snil = true := by
+  rw [fieldsHaveType]
+
+@[simp] theorem fieldsHaveType_cons (env : Env) (F rest : Ty) (a r : Val) :
+    fieldsHaveType env (.fcons F rest) (.scons a r) =
+      (hasType env F a && fieldsHaveType env rest r) := by
+  rw [fieldsHaveType]
+
+theorem fieldsHaveType_inv {env : Env} {fs : Ty} {xs : Val} (h : fieldsHaveType env fs xs = true) :
+    (fs = .fnil ∧ xs = .snil) ∨ ∃ F rest a r, fs = .fcons F rest ∧ xs = .scons a r ∧
+      hasType env F a = true ∧ fieldsHaveType env rest r = true := by
+  rw [fieldsHaveType.eq_def] at h
+  split at h
+  · exact .inl ⟨rfl, rfl⟩
+  · simp only [Bool.and_eq_true] at h; exact .inr ⟨_, _, _, _, rfl, rfl, h⟩
+  · simp at h
+
+@[simp] theorem entriesHaveType_snil (env : Env) (K V : Ty) :
+    entriesHaveType env K V .snil = true := by
+  rw [entriesHaveType]
+
+@[simp] theorem entriesHaveType_scons (env : Env) (K V : Ty) (k v r : Val) :
+    entriesHaveType env K V (.scons (.pair k v) r) =
+      (hasType env K k && hasType env V v && entriesHaveType env K V r) := by
+  rw [entriesHaveType]
+
+theorem entriesHaveType_inv {env : Env} {K V : Ty} {es : Val}
+    (h : entriesHaveType env K V es = true) :
+    es = .snil ∨ ∃ k v r, es = .scons (.pair k v) r ∧ hasType env K k = true ∧
+      hasType env V v = true ∧ entriesHaveType env K V r = true := by
+  rw [entriesHaveType.eq_def] at h
+  split at h
+  · exact .inl rfl
+  · simp only [Bool.and_eq_true] at h; exact .inr ⟨_, _, _, rfl, h.1.1, h.1.2, h.2⟩
+  · simp at h
+
+theorem keyLike_of_basicHasType {b : Basic} {k k' : Val} (h : basicHasType b k = true)
+    (h' : basicHasType b k' = true) : keyLike k k' = true := by
+  cases b <;> cases k <;> simp [basicHasType] at h <;> cases k' <;> simp [basicHasType] at h' <;>
+    simp [keyLike]
+  · omega
+  · omega
+
+/-- a typed value that is an array / struct body, a spine or a pair does not exist; used to
+discharge impossible cases -/
+theorem hasType_shape {env : Env} {T : Ty} {v : Val} (h : hasType env T v = true) :
+    (∃ b, env.under T = .basic b ∧ basicHasType b v = true) ∨ v = .nilv ∨
+    (∃ R a w, env.under T = .ptr R ∧ v = .ptr a w ∧ hasType env R w = true) ∨
+    (∃ E a sp xs, env.under T = .slice E ∧ v = .slice a sp xs ∧ allHaveType env E xs = true) ∨
+    (∃ n E xs, env.under T = .array n E ∧ v = .arr xs ∧ xs.slen = n ∧
+      allHaveType env E xs = true) ∨
+    (∃ fs xs, env.under T = .struct fs ∧ v = .struct xs ∧ fieldsHaveType env fs xs = true) ∨
+    (∃ K V a es, env.under T = .map K V ∧ v = .map a es ∧ canEqual env K = true ∧
+      entriesHaveType env K V es = true ∧ keysDistinct es = true) := by
+  rw [hasType.eq_def] at h
+  split at h
+  · exact .inl ⟨_, by assumption, h⟩
+  · exact .inr (.inl rfl)
+  · exact .inr (.inr (.inl ⟨_, _, _, by assumption, rfl, h⟩))
+  · exact .inr (.inl rfl)
+  · exact .inr (.inr (.inr (.inl ⟨_, _, _, _, by assumption, rfl, h⟩)))
+  · simp only [Bool.and_eq_true, beq_iff_eq] at h
+    exact .inr (.inr (.inr (.inr (.inl ⟨_, _, _, by assumption, rfl, h.1, h.2⟩))))
+  · exact .inr (.inr (.inr (.inr (.inr (.inl ⟨_, _, by assumption, rfl, h⟩)))))
+  · exact .inr (.inl rfl)
+  · simp only [Bool.and_eq_true] at h
+    exact .inr (.inr (.inr (.inr (.inr (.inr ⟨_, _, _, _, by assumption, rfl, h.1.1, h.1.2, h.2⟩)))))
+  · simp at h
+
+/-- two values of one comparable type have the same pointer-free shape -/
+theorem keyLike_of_hasType_aux {env : Env} (hf : env.flagsOk = true) (k : Val) :
+    (∀ K k', canEqual env K = true → hasType env K k = true → hasType env K k' = true →
+      keyLike k k' = true) ∧
+    (∀ E ys, canEqual env E = true → allHaveType env E k = true → allHaveType env E ys = true →
+      k.slen = ys.slen → keyLike k ys = true) ∧
+    (∀ fs ys, canEqual env fs = true → fieldsHaveType env fs k = true →
+      fieldsHaveType env fs ys = true → keyLike k ys = true) := by
+  have top : ∀ (k : Val),
+      (∀ E xs ys, k = .arr xs → canEqual env E = true → allHaveType env E xs = true →
+        allHaveType env E ys = true → xs.slen = ys.slen → keyLike xs ys = true) →
+      (∀ fs xs ys, k = .struct xs → canEqual env fs = true → fieldsHaveType env fs xs = true →
+        fieldsHaveType env fs ys = true → keyLike xs ys = true) →
+      ∀ K k', canEqual env K = true → hasType env K k = true → hasType env K k' = true →
+        keyLike k k' = true := by
+    intro k hA hS K k' hc hk hk'
+    have hc' := canEqual_under hf hc
+    rcases hasType_shape hk with ⟨b, hU, hb⟩ | rfl | ⟨R, _, _, hU, _⟩ | ⟨E, _, _, _, hU, _⟩ |
+        ⟨n, E, xs, hU, rfl, hl, hxs⟩ | ⟨fs, xs, hU, rfl, hxs⟩ | ⟨K', V, _, _, hU, _⟩
+    · rw [hasType_basic hU] at hk'; exact keyLike_of_basicHasType hb hk'
+    · rcases hasType_false_of_under hk with ⟨b, hU⟩ | ⟨R, hU⟩ | ⟨E, hU⟩ | ⟨n, E, hU⟩ | ⟨fs, hU⟩ |
+        ⟨K', V, hU⟩
+      · rw [hasType_basic hU] at hk; cases b <;> simp [basicHasType] at hk
+      · rw [hU] at hc'; simp [canEqual] at hc'
+      · rw [hU] at hc'; simp [canEqual] at hc'
+      · obtain ⟨_, h, _⟩ := (hasType_array hU _).1 hk; cases h
+      · obtain ⟨_, h, _⟩ := (hasType_struct hU _).1 hk; cases h
+      · rw [hU] at hc'; simp [canEqual] at hc'
+    · rw [hU] at hc'; simp [canEqual] at hc'
+    · rw [hU] at hc'; simp [canEqual] at hc'
+    · obtain ⟨ys, rfl, hl', hys⟩ := (hasType_array hU _).1 hk'
+      rw [hU] at hc'
+      simp only [keyLike]
+      exact hA E xs ys rfl (by simpa [canEqual] using hc') hxs hys (by omega)
+    · obtain ⟨ys, rfl, hys⟩ := (hasType_struct hU _).1 hk'
+      rw [hU] at hc'
+      simp only [keyLike]
+      exact hS fs xs ys rfl (by simpa [canEqual] using hc') hxs hys
+    · rw [hU] at hc'; simp [canEqual] at hc'
+  induction k with
+  | scons h t ih1 ih2 =>
+    refine ⟨top _ (by simp) (by simp), ?_, ?_⟩
+    · intro E ys hc hk hys hl
+      cases ys <;> simp [slen] at hl
+      simp only [allHaveType_scons, Bool.and_eq_true] at hk hys
+      simp only [keyLike, Bool.and_eq_true]
+      exact ⟨ih1.1 E _ hc hk.1 hys.1, ih2.2.1 E _ hc hk.2 hys.2 (by simpa using hl)⟩
+    · intro fs ys hc hk hys
+      rcases fieldsHaveType_inv hk with ⟨_, h⟩ | ⟨F, rest, a, r, rfl, h, ha, hr⟩
+      · cases h
+      · cases h
+        rcases fieldsHaveType_inv hys with ⟨h, _⟩ | ⟨F', rest', b, s, h, rfl, hb, hs⟩
+        · cases h
+        · cases h
+          simp only [Bool.and_eq_true, canEqual] at hc
+          simp only [keyLike, Bool.and_eq_true]
+          exact ⟨ih1.1 _ _ hc.1 ha hb, ih2.2.2 _ _ hc.2 hr hs⟩
+  | snil =>
+    refine ⟨top _ (by simp) (by simp), ?_, ?_⟩
+    · intro E ys _ _ hys _
+      rcases allHaveType_inv hys with rfl | ⟨_, _, rfl, _⟩
+      · simp [keyLike]
+      · simp_all [slen]
+    · intro fs ys _ hk hys
+      rcases fieldsHaveType_inv hk with ⟨rfl, _⟩ | ⟨F, rest, a, r, _, h, _⟩
+      · rcases fieldsHaveType_inv hys with ⟨_, rfl⟩ | ⟨F', rest', b, s, h, _⟩
+        · simp [keyLike]
+        · cases h
+      · cases h
+  | arr xs ih =>
+    refine ⟨top _ (fun E xs' ys h => by cases h; exact ih.2.1 E ys) (by simp), ?_, ?_⟩
+    · intro E ys _ hk; rcases allHaveType_inv hk with h | ⟨_, _, h, _⟩ <;> cases h
+    · intro fs ys _ hk; rcases fieldsHaveType_inv hk with ⟨_, h⟩ | ⟨_, _, _, _, _, h, _⟩ <;> cases h
+  | struct xs ih =>
+    refine ⟨top _ (by simp) (fun fs xs' ys h => by cases h; exact ih.2.2 fs ys), ?_, ?_⟩
+    · intro E ys _ hk; rcases allHaveType_inv hk with h | ⟨_, _, h, _⟩ <;> cases h
+    · intro fs ys _ hk; rcases fieldsHaveType_inv hk with ⟨_, h⟩ | ⟨_, _, _, _, _, h, _⟩ <;> cases h
+  | _ =>
+    refine ⟨top _ (by simp) (by simp), ?_, ?_⟩
+    · intro E ys _ hk; rcases allHaveType_inv hk with h | ⟨_, _, h, _⟩ <;> cases h
+    · intro fs ys _ hk; rcases fieldsHaveType_inv hk with ⟨_, h⟩ | ⟨_, _, _, _, _, h, _⟩ <;> cases h
+
+theorem keyLike_of_hasType {env : Env} (hf : env.flagsOk = true) {K : Ty} {k k' : Val}
+    (hc : canEqual env K = true) (hk : hasType env K k = true) (hk' : hasType env K k' = true) :
+    keyLike k k' = true :=
+  (keyLike_of_hasType_aux hf k).1 K k' hc hk hk'
+
+/-- the NaN-free values of one comparable type form a key set -/
+theorem keySet_typed {env : Env} (hf : env.flagsOk = true) {K : Ty} (hc : canEqual env K = true) :
+    KeySet (fun k => hasType env K k = true ∧ nanFree k = true) :=
+  ⟨fun _ _ ha hb => keyLike_of_hasType hf hc ha.1 hb.1, fun _ ha => ha.2⟩
+
+theorem isEntries_of_entriesHaveType {env : Env} {K V : Ty} {es : Val}
+    (h : entriesHaveType env K V es = true) : isEntries es = true := by
+  induction es with
+  | scons e r _ ihr =>
+    rcases entriesHaveType_inv h with h' | ⟨k, v, r', h', _, _, hr⟩
+    · cases h'
+    · cases h'; simp [isEntries, ihr hr]
+  | snil => rfl
+  | _ => rcases entriesHaveType_inv h with h' | ⟨_, _, _, h', _⟩ <;> cases h'
+
+/-- `entriesHaveType` says: a spine of pairs, each with a typed key and a typed value -/
+theorem entriesHaveType_iff_mem {env : Env} {K V : Ty} {es : Val} :
+    entriesHaveType env K V es = true ↔
+      isEntries es = true ∧
+        ∀ e ∈ es.toList, hasType env K (ekey e) = true ∧ hasType env V (evalue e) = true := by
+  induction es with
+  | scons e r _ ihr =>
+    cases e <;> try (rw [entriesHaveType.eq_def]; simp [isEntries]; done)
+    simp [isEntries, toList, ekey, evalue, ihr, and_assoc, and_left_comm]
+  | snil => simp [isEntries, toList]
+  | _ => rw [entriesHaveType.eq_def]; simp [isEntries]
+
+theorem nanFree_iff_mem {es : Val} (h : isEntries es = true) :
+    nanFree es = true ↔ ∀ e ∈ es.toList, nanFree e = true := by
+  induction es with
+  | scons e r _ ihr =>
+    cases e <;> simp [isEntries] at h
+    simp [nanFree, toList, ihr h]
+  | snil => simp [nanFree, toList]
+  | _ => simp [isEntries] at h
+
+theorem entriesHaveType_sortEntries {env : Env} {K V : Ty} {es : Val}
+    (h : entriesHaveType env K V es = true) : entriesHaveType env K V (sortEntries es) = true := by
+  rw [entriesHaveType_iff_mem] at h ⊢
+  exact ⟨isEntries_sortEntries h.1, fun e he => h.2 e (mem_sortEntries.1 he)⟩
+
+theorem nanFree_sortEntries {es : Val} (hs : isEntries es = true) (h : nanFree es = true) :
+    nanFree (sortEntries es) = true := by
+  rw [nanFree_iff_mem (isEntries_sortEntries hs)]
+  rw [nanFree_iff_mem hs] at h
+  exact fun e he => h e (mem_sortEntries.1 he)
+
+theorem nanFree_ekey {e : Val} (h : nanFree e = true) : nanFree (ekey e) = true := by
+  cases e <;> simp_all [ekey, nanFree]
+
+theorem nanFree_evalue {e : Val} (h : nanFree e = true) : nanFree (evalue e) = true := by
+  cases e <;> simp_all [evalue, nanFree]
+
+/-- the keys of a typed NaN-free map lie in the key set of its key type -/
+theorem keysIn_typed {env : Env} {K V : Ty} {es : Val} (h : entriesHaveType env K V es = true)
+    (hn : nanFree es = true) :
+    KeysIn (fun k => hasType env K k = true ∧ nanFree k = true) es := by
+  have hs := isEntries_of_entriesHaveType h
+  rw [entriesHaveType_iff_mem] at h
+  rw [nanFree_iff_mem hs] at hn
+  exact ⟨hs, fun e he => ⟨(h.2 e he).1, nanFree_ekey (hn e he)⟩⟩
+
+end Cmp
+
 end Goderive
